@@ -184,6 +184,7 @@ def configs(ss, rng, n):
             gdur = [ss.years(gest), ss.dur(gest * 12, 'month'), ss.dur(gest * 365.25 / 7, 'week'), ss.dur(gest * 365.25, 'day')][gform]
             kw = dict(fertility_rate=fert, dur_pregnancy=gdur, p_maternal_death=ss.bernoulli(pmat), p_neonatal_death=ss.bernoulli(pneo), burnin=burnin)
             if pp is not None: kw['dur_postpartum'] = ss.constant(ss.years(pp))
+            if isinstance(fert, pd.DataFrame): kw.update(min_age=22, max_age=33)     # a window narrower than the ages that carry rates in the table
             dem = [ss.Pregnancy(**kw)] + ([ss.Deaths(death_rate=25)] if deaths else [])
             nw = [dict(pre=ss.PrenatalNet, post=ss.PostnatalNet, maternal=ss.MaternalNet)[k]() for k in nets]
             return ss.Sim(n_agents=250, demographics=dem, networks=nw or None, start=2000, dur=dur, dt=dt, rand_seed=seed, verbose=0)
